@@ -19,6 +19,7 @@ register(
         "GtModel.C11.removed_plus_inserted_symm",
         "GtModel.C11.removed_plus_inserted_reverse",
         "GtModel.C11.no_marks_iff_eq",
+        "GtModel.C11.minimal_iff_kept_longest",
         # what `lcs` means
         "GtModel.EditMatrix.lcs_le",
         "GtModel.EditMatrix.lcs_attained",
